@@ -528,6 +528,39 @@ def _iter_zip(eng, st, fr, t, args, dest, target):
     return ('iter', 'zip', a, b)
 
 
+@model('std::iter::Iterator::filter')
+def _iter_filter(eng, st, fr, t, args, dest, target):
+    """over a known sequence the predicate is evaluated for every item now (it is assumed pure); the result iterates
+    the kept items"""
+    items, fns, base = iter_plan(eng, st, args[0])
+    f = args[1]
+    if items is None:
+        return ('iter', 'filter', eng.purify(st, eng.force(st, args[0])), f)
+    kroot = eng.temp(st, ('vec', ()))      # kept items live in the state (a fork inside the predicate copies them)
+
+    def next_item(st, i):
+        if i >= len(items):
+            eng.finish_call(st, st.frames[-1], dest, target, ('iter', 'val', st.mem[kroot]))
+            return
+        apply_fn(st, i, 0, items[i])
+
+    def apply_fn(st, i, j, val):
+        if j < len(fns):
+            def cont(st, fr2, dest_, target_, rv, i=i, j=j):
+                apply_fn(st, i, j + 1, rv)
+            eng.call_callable(st, fns[j], [val], ('seq', dest, target, cont))
+            return
+        ref = mk_ref(eng.temp(st, val), ())
+
+        def cont2(st, fr2, dest_, target_, rv, i=i, val=val):
+            if eng.decide(st, rv):
+                st.mem[kroot] = ('vec', st.mem[kroot][1] + (val,))
+            next_item(st, i + 1)
+        eng.call_callable(st, f, [ref], ('seq', dest, target, cont2))
+    next_item(st, 0)
+    return DEFER
+
+
 @model('std::iter::Iterator::take')
 def _iter_take(eng, st, fr, t, args, dest, target):
     return ('iter', 'take', eng.force(st, args[0]), args[1])
